@@ -45,7 +45,7 @@ PROPS = {
               'conflict; follower commit only on verified paths, monotone and bounded by the leader commit.',
               ['Log Matching as a global invariant'],
               'must-facts with alias/congruence closure, CFG dominance, small-domain arithmetic'),
-    'C05': _p(['R-timer-reset', 'R-heartbeat', 'R-vote-refusal-justified', 'R-sender-total', 'R-chunk-length', 'R-reply-exhaustive', 'R-disposition', 'R-serializer-idle'],
+    'C05': _p(['R-timer-reset', 'R-heartbeat', 'R-vote-refusal-justified', 'R-sender-total', 'R-chunk-length', 'R-reply-exhaustive', 'R-disposition', 'R-serializer-idle', 'R-hint-floor'],
               'progress obligations only: election deadline re-armed by accepted append_entries / grant / candidacy and candidacy guarded by the deadline; every '
               'iteration of the per-follower send loop sends; next index moved past a finished snapshot; every (reset, success) reply combination is acted on and refreshes '
               'the response time; no dequeued command is dropped silently.',
